@@ -58,6 +58,8 @@ func NewHTTP2HTTPPlugin(_ PluginContext, options v1.ClientPluginOptions) (Plugin
 			req := r.Out
 			req.URL.Scheme = "http"
 			req.URL.Host = p.opts.LocalAddr
+			// forward the query exactly as received (see pkg/util/vhost/http.go)
+			req.URL.RawQuery = r.In.URL.RawQuery
 			if p.opts.HostHeaderRewrite != "" {
 				req.Host = p.opts.HostHeaderRewrite
 			}
